@@ -7,9 +7,14 @@ ROUTE = '_ZN8Pistache4Rest6Router5routeERKNS_4Http7RequestENS2_14ResponseWriterE
 RSTUBS = ['_ZN8Pistache4Http7MessageC2ERKS1_', '_ZN8Pistache4Http7MessageD2Ev', '_ZN8Pistache4Http14ResponseWriterD2Ev', '_ZN8Pistache4Rest7RequestD2Ev', '_ZN8Pistache4Http7RequestD2Ev',
           '_ZN8Pistache4Rest15SegmentTreeNode16sanitizeResourceERKNSt7__cxx1112basic_stringIcSt11char_traitsIcESaIcEEE', '_ZNK8Pistache4Rest6Router21invokeNotFoundHandlerERKNS_4Http7RequestENS2_14ResponseWriterE',
           '_ZNK8Pistache4Rest5Route13invokeHandlerIJNS0_7RequestENS_4Http14ResponseWriterEEEEvDpOT_', '_ZN8Pistache5Async7PromiseIlED2Ev', '_ZN8Pistache5Async7PromiseIlED0Ev']
-UNITS = {'route': dict(src=ROUTER, mode='sel', roots=[ROUTE], stubs=RSTUBS, selfcall={FIND: 'vp_rec_findRoute'}),
+ADD = '_ZN8Pistache4Rest15SegmentTreeNode8addRouteERKSt17basic_string_viewIcSt11char_traitsIcEERKSt8functionIFNS0_5Route6ResultENS0_7RequestENS_4Http14ResponseWriterEEERKSt10shared_ptrIcE'
+UNITS = {'add': dict(src=ROUTER, mode='sel', roots=[ADD], selfcall={ADD: 'vp_rec_addRoute'}),
+         'route': dict(src=ROUTER, mode='sel', roots=[ROUTE], stubs=RSTUBS, selfcall={FIND: 'vp_rec_findRoute'}),
          'find': dict(src=ROUTER, mode='sel', roots=[FIND], selfcall={FIND: 'vp_rec_findRoute'})}
 HARNESSES = [
+  dict(name='add_step', units=['add'], file='c10_add.c', defs={}, unwind=5, hunwind=34, timeout=900,
+       bound='ONE level of addRoute on an arbitrary node: 0..1 existing fixed / parameter / optional child (keys of 1..2 bytes), wildcard child or not, route or not; pattern empty or a first segment of 1..3 arbitrary bytes with or without a lower pattern of 0..2 bytes',
+       desc='addRoute step with the real getSegmentType: segment kind, refusals, reuse or single creation of the child under exactly the segment key, lower pattern and handler passed on, route installed or duplicate refused'),
   dict(name='router_route', units=['route'], file='c10_router.c', defs={'NPAR': 1, 'NT': 2, 'NMW': 1}, unwind=4, hunwind=34, timeout=1500,
        thorough=dict(defs={'NPAR': 1, 'NT': 3, 'NMW': 2}, unwind=5, timeout=3000),
        bound='route table of 0..2 (thorough 3) methods, each tree a root node of the find_step shape (children answer arbitrarily); normalised path empty or one segment of 1..2 bytes; any request method; 0..1 (thorough 2) middlewares and custom handlers with every outcome; not-found handler installed or not',
